@@ -205,8 +205,8 @@ func caseC06(c *Ctx) {
 		// nothing that existed before may change or disappear
 		for p, e := range bm {
 			a, ok := am[p]
-			if !ok || a.Kind != e.Kind || (e.Kind == "f" && a.Size != e.Size) {
-				fail("C06:preexisting-entry-changed:"+mode, "%s (%s, size %d) existed before the call and is now %+v (present=%v)", p, e.Kind, e.Size, a, ok)
+			if !ok || a.Kind != e.Kind || a.Mode != e.Mode || (e.Kind == "f" && (a.Size != e.Size || a.Sum != e.Sum)) {
+				fail("C06:preexisting-entry-changed:"+mode, "%s (%s, size %d, mode %o) existed before the call and is now %+v (present=%v)", p, e.Kind, e.Size, e.Mode, a, ok)
 			}
 		}
 		var newEntries []string
@@ -539,7 +539,11 @@ func caseC08(c *Ctx) {
 	if anyDiff || origin == "mkdir" {
 		nontrivial = true
 	}
-	before := snapString(snapshot(j))
+	before := snapStringFull(snapshot(j))
+	if c.Chance(1, 8) {
+		target += "/" // a target directory written with a trailing slash is the same directory
+		c.Scenario["target_with_trailing_slash"] = true
+	}
 	d := &DiskPlan{Jail: j, Target: target, FailAt: -1}
 	if readFault {
 		d.FailAt, d.Errno, d.Sticky, d.OnlyRead = c.Draw(6), []syscall.Errno{syscall.EACCES, syscall.EIO}[c.Draw(2)], c.Draw(2) == 1, true
@@ -556,7 +560,8 @@ func caseC08(c *Ctx) {
 	} else {
 		out = c.Direct(op, env)
 	}
-	after := snapString(snapshot(j))
+	after := snapStringFull(snapshot(j))
+	target = strings.TrimSuffix(target, "/")
 	if nontrivial {
 		c.st.Distinct("nontrivial", mix(hashStr(forestString(vforest)+op.String()+before), out.TraceHash))
 	}
